@@ -14,10 +14,12 @@ import (
 	"runtime"
 	"sort"
 	"strconv"
+	"strings"
 	"sync"
 	"sync/atomic"
 	"time"
 
+	"foxverif/conc"
 	"foxverif/kit"
 	"foxverif/ref"
 
@@ -25,7 +27,7 @@ import (
 	"github.com/tigerwill90/fox"
 )
 
-const rule = "cases = short concurrent histories (N writers x M readers on 8 route keys that share radix nodes but have pairwise disjoint match languages; single operations, " +
+const rule = "cases = short concurrent histories (N writers x M readers on 9 route keys that share radix nodes but have pairwise disjoint match languages; single operations, " +
 	"multi-key transactions, aborted transactions; reads through ServeHTTP, Lookup, Reverse, Has, Route, Iter and View; GOMAXPROCS and injected delays at the commit hooks varied); " +
 	"one evaluation = one recorded history checked offline; distinct by the hash of its call-ordered (client, op, key, result) sequence; " +
 	"non-trivial when at least one read overlaps in time a committed write to the same key"
@@ -107,14 +109,30 @@ var model = porcupine.Model{
 type verKey struct{}
 
 var (
-	keys   = []string{"/a", "/ab", "/abc", "/ab/c", "/a/x/{p}", "/a/y/*{w}", "h.com/a", "/a/z/"}
-	probes = []struct{ host, path string }{{"", "/a"}, {"", "/ab"}, {"", "/abc"}, {"", "/ab/c"}, {"", "/a/x/1"}, {"", "/a/y/1/2"}, {"h.com", "/a"}, {"", "/a/z/"}}
+	keys   = []string{"/a", "/ab", "/abc", "/ab/c", "/a/x/{p}", "/a/y/*{w}", "h.com/a", "/a/z/", "/a/w/*{c}/m/{p}/{q}"}
+	probes = []struct{ host, path string }{{"", "/a"}, {"", "/ab"}, {"", "/abc"}, {"", "/ab/c"}, {"", "/a/x/1"}, {"", "/a/y/1/2"}, {"h.com", "/a"}, {"", "/a/z/"}, {"", "/a/w/1/2/m/7/8"}}
+	// parameters a handler / Lookup must see for probe i
+	wantParams = []string{"", "", "", "", "p=1", "w=1/2", "", "", "c=1/2,p=7,q=8"}
+	// first parameter mismatch seen by a concurrent reader (checked after every history)
+	paramBad atomic.Pointer[string]
 )
+
+func paramsOf(c fox.Context) string {
+	var sb strings.Builder
+	for p := range c.Params() {
+		if sb.Len() > 0 {
+			sb.WriteByte(',')
+		}
+		sb.WriteString(p.Key + "=" + p.Value)
+	}
+	return sb.String()
+}
 
 // verW is an allocation-light writer on which the handler leaves the version it carries.
 type verW struct {
-	h   http.Header
-	ver int64
+	h      http.Header
+	ver    int64
+	params string
 }
 
 func (w *verW) Header() http.Header         { return w.h }
@@ -127,7 +145,9 @@ func (w *verW) WriteHeader(c int) {
 
 func handlerFor(v int64) fox.HandlerFunc {
 	return func(c fox.Context) {
-		c.Writer().(interface{ Unwrap() http.ResponseWriter }).Unwrap().(*verW).ver = v
+		w := c.Writer().(interface{ Unwrap() http.ResponseWriter }).Unwrap().(*verW)
+		w.ver = v
+		w.params = paramsOf(c)
 	}
 }
 
@@ -193,6 +213,9 @@ func main() {
 			continue
 		}
 		totalOps += int64(len(evs))
+		if m := paramBad.Swap(nil); m != nil {
+			run.Violate(fmt.Sprintf("params|history=%d", h), "a concurrent reader observed wrong route parameters: "+*m, map[string]any{"history": h, "seed": run.Seed()})
+		}
 		c, sig := analyse(run, h, evs, &unknown)
 		contended += c
 		run.Case(fmt.Sprintf("%d|%x", h, sig), c > 0)
@@ -200,7 +223,9 @@ func main() {
 	}
 	runtime.GOMAXPROCS(runtime.NumCPU())
 	fox.VerifSetPoint(nil)
-	methodFlip(run)
+	conc.MethodFlip(run)
+	conc.OptionsStar(run)
+	conc.ParamStorm(run)
 	run.Count("operations_recorded", totalOps)
 	run.Count("reads_overlapping_a_committed_write_same_key", contended)
 	run.Count("distinct_history_signatures", int64(len(sigs)))
@@ -422,6 +447,10 @@ func read(f *fox.Router, rc interface{ IntN(int) int }, c, ki int, clock *atomic
 	case 1:
 		w := &verW{h: http.Header{}, ver: -2}
 		f.ServeHTTP(w, req())
+		if w.ver >= 0 && w.params != wantParams[ki] {
+			msg := fmt.Sprintf("handler of %s serving %s saw params %q, expected %q", k, p.path, w.params, wantParams[ki])
+			paramBad.CompareAndSwap(nil, &msg)
+		}
 		rec(event{client: c, in: in{Key: k, Op: "serve"}, out: out{Ver: w.ver}, call: call, ret: clock.Add(1)})
 	case 2:
 		v := verOf(f.Route("GET", k))
@@ -432,6 +461,10 @@ func read(f *fox.Router, rc interface{ IntN(int) int }, c, ki int, clock *atomic
 		if rte != nil {
 			if !tsr {
 				v = verOf(rte)
+				if got := paramsOf(cc); got != wantParams[ki] {
+					msg := fmt.Sprintf("Lookup of %s for %s returned params %q, expected %q", k, p.path, got, wantParams[ki])
+					paramBad.CompareAndSwap(nil, &msg)
+				}
 			}
 			cc.Close()
 		}
@@ -654,83 +687,3 @@ func joinLines(l []string) string {
 	return b.String()
 }
 
-// methodFlip: request routing takes effect atomically also on the method-not-allowed / automatic OPTIONS branches.
-// A transaction moves one path between GET and POST; every committed version serves GET with 200 or answers 405 with
-// Allow: POST - a GET must never see 404, an empty or a mixed Allow (one request, one version of the tree).
-func methodFlip(run *kit.Run) {
-	rounds := run.Pick(8, 100)
-	var served, bad atomic.Int64
-	for round := 0; round < rounds; round++ {
-		f, err := fox.New(fox.WithNoMethod(true), fox.WithAutoOptions(true))
-		if err != nil {
-			run.Inconclusive("fox.New: %v", err)
-			return
-		}
-		h := func(c fox.Context) { c.Writer().WriteHeader(200) }
-		f.MustHandle("GET", "/m/{id}", h)
-		f.MustHandle("PUT", "/other", h)
-		var stop atomic.Bool
-		var wg sync.WaitGroup
-		wg.Add(1)
-		go func() {
-			defer wg.Done()
-			from, to := "GET", "POST"
-			for i := 0; i < 400 && !stop.Load(); i++ {
-				_ = f.Updates(func(txn *fox.Txn) error {
-					if _, err := txn.Delete(from, "/m/{id}"); err != nil {
-						return err
-					}
-					_, err := txn.Handle(to, "/m/{id}", h)
-					return err
-				})
-				from, to = to, from
-			}
-			stop.Store(true)
-		}()
-		for rd := 0; rd < 6; rd++ {
-			wg.Add(1)
-			go func(rd int) {
-				defer wg.Done()
-				for !stop.Load() {
-					w := &flipW{h: http.Header{}}
-					method := []string{"GET", "POST", "OPTIONS"}[rd%3]
-					f.ServeHTTP(w, &http.Request{Method: method, URL: &url.URL{Path: "/m/7"}, Header: http.Header{}, Proto: "HTTP/1.1", ProtoMajor: 1, ProtoMinor: 1})
-					served.Add(1)
-					allow := w.h.Get("Allow")
-					other := map[string]string{"GET": "POST", "POST": "GET"}[method]
-					ok := false
-					switch {
-					case method == "OPTIONS":
-						ok = w.status != 404 && (allow == "GET, OPTIONS" || allow == "POST, OPTIONS")
-					case w.status == 200 && allow == "":
-						ok = true
-					case w.status == 405 && (allow == other || allow == other+", OPTIONS"):
-						ok = true
-					}
-					if !ok {
-						bad.Add(1)
-						stop.Store(true)
-						run.Violate(fmt.Sprintf("torn-routing|round=%d", round), fmt.Sprintf("%s /m/7 answered status=%d Allow=%q while a transaction moves the route between GET and POST: every committed version gives 200 or 405 with the other method", method, w.status, allow), map[string]any{"round": round, "method": method, "status": w.status, "allow": allow})
-					}
-				}
-			}(rd)
-		}
-		wg.Wait()
-		run.Case(fmt.Sprintf("method-flip|%d", round), true)
-	}
-	run.Count("method_flip_requests", served.Load())
-	run.Count("method_flip_torn", bad.Load())
-}
-
-type flipW struct {
-	h      http.Header
-	status int
-}
-
-func (w *flipW) Header() http.Header         { return w.h }
-func (w *flipW) Write(b []byte) (int, error) { return len(b), nil }
-func (w *flipW) WriteHeader(c int) {
-	if w.status == 0 {
-		w.status = c
-	}
-}
